@@ -9,6 +9,11 @@ from harness.lib.core import VERIF, Ctx, Rng, lean_lock, run_driver, shrink_ops
 from harness.extract import acl as x_acl
 from harness.rigs import acl as rig
 from harness.rigs import acl_state as rig_s
+from harness.rigs import acl_parse as rig_p
+from harness.rigs import acl_episode as rig_e
+from harness.extract import acl_parse as x_parse
+from harness.extract import acl_writers as x_writers
+from harness.extract import acl_describe as x_describe
 
 MANIFEST = {
     "text": "Lean 4 proof, for every rule list, packet/frame and sequence of the operations the code offers (constructor, add_rule, "
@@ -23,19 +28,47 @@ MANIFEST = {
             "C07_gen_permit_frame_check, C07_gen_frame); constructor, bounds, readers of describe_state/show, add_rule keyword plumbing, "
             "request-handler layout against the four agent actions, the seven loader loops and the device defaults regenerated as tables "
             "with their own obligations; differential rig R-acl through the Python API, the request API, agent actions and "
-            "Router/Firewall.from_config, on bare lists, router lists and all seven firewall lists, with real pings and injected frames.",
-    "note": "C07-specific: pydantic coercion of ports/protocols/addresses and the PrettyTable rendering of show() are exercised by the rig, "
-            "not modelled; what a device does with a permitted frame is C06/C08's subject (here only the verdicts on its real frames).",
+            "Router/Firewall.from_config, on bare lists, router lists and all seven firewall lists, with real pings and injected frames. "
+            "Round 7: (a) VALUE layer of the port / protocol fields — port_validator and protocol_validator translated and proved equal to "
+            "their specification over the regenerated PORT_LOOKUP / PROTOCOL_LOOKUP / VALID_PROTOCOLS (C07_gen_port_validator, "
+            "C07_gen_protocol_validator, table facts C07_gen_port_table / C07_gen_protocol_table, declarations C07_gen_field_types); "
+            "proved for every written value what the Python API, the request API, the agent action and the scenario-file loaders make "
+            "of it (None / sentinel ALL / name / number / junk; double validation harmless; action = request except None; loaders accept "
+            "names only, falsy = unspecified; port 0 under its name NONE is a specified port on every surface); rig family `parse` "
+            "ENUMERATES every name of both tables, case variants, boundary numbers, sentinels and junk on 7 surfaces x 3 fields. "
+            "(b) LIFECYCLE — last-write-wins theorem for the list built from a scenario file (C07_installAll_slot, C07_configured_list: a "
+            "file rule at 22 / 23 replaces the default permit); the code's agreement that no lifecycle hook is an operation is a TIE: "
+            "inventory of every writer of an ACL in the package and of every lifecycle hook (C07_gen_acl_writers, "
+            "C07_gen_hooks_leave_acl_alone) + rig family `episode` through the real PrimaiteGymEnv (episodes 0-2, env.reset, steps, power "
+            "cycles, Node.reset, setup_for_episode on device and simulation; rules at 0, 1, 22, 23). (c) READERS — ACLRule.describe_state "
+            "and the row cells of show() translated; describe_state proved to be the identity on a rule (C07_gen_describe_rule), show() "
+            "the identity except port 0 displayed as ANY (C07_gen_show_cells).",
+    "note": "C07-specific: PARTIAL / not modelled: parsing of ADDRESS strings (IPv4Address() of the standard library; addresses reach the model "
+            "already parsed; malformed ones are exercised by the rig's malformed stream only), bool / non-str-non-int values of ports, pydantic's "
+            "smart-union mechanics (modelled as 'validated value, else the literal'), PrettyTable rendering beyond the cells, get_relevant_rules "
+            "(dead code), ACLRule.__str__; that lifecycle hooks do not write lists is tied by inventory + rig, not proved about Python; what a "
+            "device does with a permitted frame is C06/C08's subject (here only the verdicts on its real frames).",
     "technique": "Lean 4 theorems over an executable ACL model; model tied by source translation, regenerated tables and a differential rig",
     "design_ref": "5/C07",
 }
-MODULES = ["PrimaiteModel.Props.C07", "PrimaiteModel.Props.C07State", "PrimaiteModel.Props.C07Wildcard", "PrimaiteModel.Props.C07Frame"]
+MODULES = ["PrimaiteModel.Props.C07", "PrimaiteModel.Props.C07State", "PrimaiteModel.Props.C07Wildcard", "PrimaiteModel.Props.C07Frame",
+           "PrimaiteModel.Props.C07Parse", "PrimaiteModel.Props.C07Life", "PrimaiteModel.Props.C07Readers"]
 EXE = "drv_c07"
 
 
 # ------------------------------------------------------------------------------------------ one case, any family
 def _impl(case: dict) -> Tuple[List[str], List[str], List[str]]:
-    """(implementation answers, model lines, oracle complaints) of one case of any family."""
+    """(implementation answers, model lines, oracle complaints) of one case of any family.  An exception the implementation raises
+    where the rigs expect none is its ANSWER on this input (disagrees with the model at line 0; the case is the replay)."""
+    try:
+        return _impl_raw(case)
+    except Exception as e:  # noqa: BLE001
+        import traceback
+        where = [f"{f.name}:{f.lineno}" for f in traceback.extract_tb(e.__traceback__) if "/primaite/" in f.filename][-1:]
+        return [f"exception:{type(e).__name__} at {where[0] if where else '?'}"], ["reset"], []
+
+
+def _impl_raw(case: dict) -> Tuple[List[str], List[str], List[str]]:
     fam = case.get("family", "list")
     if fam == "list":
         impl, slots, preload = rig.run_impl(case)
@@ -48,6 +81,12 @@ def _impl(case: dict) -> Tuple[List[str], List[str], List[str]]:
     if fam == "wf":
         impl, lines = rig_s.run_wf()
         return ["ok"] + impl, ["reset"] + lines, []
+    if fam == "parse":
+        impl, lines = rig_p.run_impl(case)
+        return impl, lines, []
+    if fam == "episode":
+        impl, lines = rig_e.run(case)
+        return impl, lines, []
     raise ValueError(fam)
 
 
@@ -77,6 +116,8 @@ def _sig(case: dict, lines: List[str], i: int, complaints: List[str]) -> dict:
     fam = case.get("family", "list")
     if i < 0 and complaints:
         return {"kind": "oracle", "family": fam, "what": "ping-vs-verdicts"}
+    if i == 0 and lines == ["reset"]:
+        return {"kind": "impl-exception", "family": fam, "host": case.get("host") or case.get("kind") or case.get("surface")}
     d = _op_of_line(case, lines, i)
     if fam == "list":
         sig = {"kind": "model-vs-impl", "op": d["op"], "surface": case["surface"]}
@@ -84,6 +125,21 @@ def _sig(case: dict, lines: List[str], i: int, complaints: List[str]) -> dict:
             pos = int(lines[i].split()[1])
             sig["pos_class"] = "in-range" if 0 <= pos < 24 else ("24" if pos == 24 else "out-of-range")
         return sig
+    if fam == "parse":
+        w = lines[i].split() if 0 <= i < len(lines) else ["?"] * 5
+        return {"kind": "model-vs-impl", "family": fam, "surface": case["surface"], "field": case["field"], "value_kind": w[3] if len(w) > 3 else "?"}
+    if fam == "episode":
+        # which lifecycle events / resets lie between the start and the first disagreement
+        upto, events = 0, []
+        for op in case["ops"]:
+            if upto > i:
+                break
+            upto += {"reset": 1 + len(rig_e._build_lines(case)), "dumpall": 1, "life": 0, "add": 2, "remove": 2, "check": 2}[op["op"]]
+            if op["op"] == "reset" and "env.reset" not in events:
+                events.append("env.reset")
+            if op["op"] == "life" and op["what"] not in events:
+                events.append(op["what"])
+        return {"kind": "model-vs-impl", "family": fam, "op": d["op"], "host": case["kind"], "after": sorted(events)}
     sig = {"kind": "model-vs-impl", "family": fam, "op": d["op"], "host": case.get("host") or case.get("kind")}
     if d["list"]:
         sig["list"] = d["list"]
@@ -125,6 +181,9 @@ def run(ctx: Ctx):
         ctx.extract("Acl", x_acl.emit)
         ctx.extract("AclMatch", x_acl.emit_match)
         ctx.extract("AclState", x_acl.emit_state)
+        ctx.extract("AclParse", x_parse.emit)
+        ctx.extract("AclWriters", x_writers.emit)
+        ctx.extract("AclDescribe", x_describe.emit)
         proved = ctx.prove(MODULES, exes=[EXE], clean=False, leanchecker=ctx.thorough)
     # search stage: a broken extractor / C07_gen_* obligation says the source changed shape; the families aimed at the classes of
     # change seen so far (near-duplicate overwrites, reassigned defaults) are then run at three times the volume
@@ -141,6 +200,8 @@ def run(ctx: Ctx):
     for f in sorted((VERIF / "corpus" / "C07").glob("*.json")):
         cases.append(("corpus:" + f.name, json.loads(f.read_text())["case"]))
     cases.append(("sweep:firewall-lists", _sweep_case()))
+    cases.append(("sweep:wildcards-src", rig.wildcard_sweep_case("src")))
+    cases.append(("sweep:wildcards-dst", rig.wildcard_sweep_case("dst")))
     cases.append(("wf:exhaustive", {"family": "wf"}))
     rng = ctx.rng.fork("acl")
     for k in range(ctx.scale(400, 8000)):
@@ -153,6 +214,13 @@ def run(ctx: Ctx):
         cases.append((f"neardup:{k}", rig_s.gen_neardup_case(k, rng_n)))
     for k in range(boost * ctx.scale(72, 720)):
         cases.append((f"neardup-dev:{k}", rig_s.gen_dev_neardup_case(k, rng_n)))
+    # value layer: enumerated (every name of both tables, boundary numbers, sentinels, junk) x 7 surfaces x 3 fields
+    for c in rig_p.gen_cases(x_parse.port_names(), x_parse.proto_names()):
+        cases.append((f"parse:{c['surface']}:{c['field']}", c))
+    # lifecycle: the configured list is the enforced list in episodes 0, 1, 2 and across power cycles / resets / hooks
+    rng_e = ctx.rng.fork("acl-episode")
+    for k in range(boost * ctx.scale(45, 600)):
+        cases.append((f"episode:{k}", rig_e.gen_case(k, rng_e)))
     rng_d = ctx.rng.fork("acl-dev")
     for k in range(ctx.scale(150, 3000)):
         cases.append((f"dev:{k}", rig_s.gen_dev_case(rng_d, max_ops=ctx.scale(14, 24))))
@@ -179,6 +247,19 @@ def run(ctx: Ctx):
         deciders = [m.split()[1] for m, q in zip(model, lines) if q.startswith(("check", "frame")) and len(m.split()) == 2]
         nontrivial = (any(d not in ("implicit", "exempt") for d in deciders) or "raised" in model or "index-error" in model
                       or any(q.startswith("setimp") for q in lines))
+        if fam == "parse":
+            for q, m in zip(lines[1:], model[1:]):
+                ctx.count(f"parse:{case['surface']}:" + ("refused" if m == "raised" else "unspecified" if m == "-" else "specified"))
+        if fam == "episode":
+            for op in case["ops"]:
+                if op["op"] == "reset":
+                    ctx.count("episode: env.reset() then the configured list compared")
+                elif op["op"] == "life":
+                    ctx.count("episode: lifecycle event " + op["what"])
+            for lst, items in case["preload"].items():
+                for it in items:
+                    if it["pos"] in (22, 23):
+                        ctx.count(f"episode: scenario rule at position {it['pos']} ({case['kind']})")
         canon = {k: v for k, v in case.items() if not k.startswith("_")}
         ctx.case(canon, nontrivial)
         if fam == "list":
@@ -222,7 +303,7 @@ def run(ctx: Ctx):
                     ctx.count("dev:" + k, v)
         if impl == model and not complaints:
             agree += 1
-            if name.startswith(("gen:", "obj:", "dev:", "neardup:")):
+            if name.startswith(("gen:", "obj:", "dev:", "neardup:", "episode:")):
                 ctx.sample({"case": name, "family": fam, "lines": lines[:10], "answers": model[:10]}, cap=6)
             continue
         # disagreement on a property observable: the model is proved to meet C07, so the trace is a failing input. Shrink it
